@@ -219,6 +219,8 @@ async def random_session(rng: Rng, n_ops: int, profile: str, box: list | None = 
     await asyncio.sleep(rng.choice([0, 0.25, 0.9, 0.999]))      # position inside a clock second
     if profile == "backlog":
         return await backlog_session(rng, s)
+    if profile == "dup":
+        return await dup_session(rng, s)
     ncons = {"fifo": 1, "race": 2}.get(profile, rng.choice([1, 2, 3]))
     topics_pool = ["ta", "tb", "tab"]       # "tab": foreign to every filter used, but "ta" is a prefix of it
     for c in range(ncons):
@@ -252,6 +254,28 @@ async def random_session(rng: Rng, n_ops: int, profile: str, box: list | None = 
                     await s.consume(c, ORDERS[0])
     if profile in ("ttl", "mixed"):
         await drain_dead(s)
+    return s
+
+
+async def dup_session(rng: Rng, s: Session) -> Session:
+    """C15 with names that occur more than once in the list (a job with a fixed id enqueued again while its earlier instance
+    still waits): the consumer takes the occurrence at the consuming end"""
+    s.consumer(0, "NORMAL", None)
+    s.dup_order = []
+    pool = ["d1", "d2", "d3"]
+    nid = 0
+    for _ in range(rng.randint(6, 16)):
+        if rng.random() < 0.45:
+            mid = rng.choice(pool)
+        else:
+            nid += 1
+            mid = f"u{nid}"
+        await s.enqueue(mid, "ta", 5, "{}", {"ts": CLOCK.us})
+        s.dup_order.append(mid)
+        if rng.random() < 0.25:
+            await s.consume(0, [9, 5, 0])
+    for _ in range(len(s.dup_order) + 1):
+        await s.consume(0, [9, 5, 0])
     return s
 
 
@@ -525,6 +549,12 @@ def one_session(arg) -> Result:
         res.dist["redis-op:" + op["op"]] += 1
     res.dist["redis-deliveries"] += len(s.deliveries)
     compare(s, model, res, label)
+    if profile == "dup":
+        got = [d["id"] for d in s.deliveries]
+        if only in (None, "C15") and (got != s.dup_order[: len(got)] or len(got) != len(s.dup_order)):
+            res.bad("impl", "a waiting message was overtaken by one enqueued after it (names that occur more than once in the list)",
+                    case={"label": label, "enqueued": s.dup_order}, observed=got, expected=s.dup_order)
+        return res
     predicates(s, res, label, only)
     extra_predicates(s, res, label, only)
     return res
